@@ -400,11 +400,15 @@ def table_programs():
                     for da in ("a", "b", "q"):
                         for init in ((), (sa,)):
                             for rev in ((False, True) if max(pa + pb + (0,)) >= 10 else (False,)):
-                                ops = []
-                                ops += placement_ops(pa, pb, desc)
-                                ops.append(["connect", 1 if rev else 0, 0 if rev else 1, [[sa, da]],
-                                            {"shift": shift, "weak": weak, "init": list(init)}])
-                                yield {"ops": ops, "until": 4}
+                                conn = ["connect", 1 if rev else 0, 0 if rev else 1, [[sa, da]],
+                                        {"shift": shift, "weak": weak, "init": list(init)}]
+                                yield {"ops": placement_ops(pa, pb, desc) + [conn], "until": 4}
+                                if pb and max(pa + pb) < 9:
+                                    # the same call issued inside the still open group block(s) of the second
+                                    # simulator, in both directions (scripts need not connect after the blocks)
+                                    yield {"ops": placement_ops(pa, pb, desc, before_close=[conn]), "until": 4}
+                                    conn2 = ["connect", 1, 0] + conn[3:]
+                                    yield {"ops": placement_ops(pa, pb, desc, before_close=[conn2]), "until": 4}
 
 
 def mixed_programs():
@@ -433,8 +437,9 @@ def mixed_programs():
                             yield {"ops": ops, "until": 4}
 
 
-def placement_ops(pa, pb, desc):
-    """ops that start S0 at positional path pa and S1 at pb"""
+def placement_ops(pa, pb, desc, before_close=None):
+    """ops that start S0 at positional path pa and S1 at pb; `before_close`: ops to be issued right after the second
+    start(), while the `with world.group()` blocks around it are still open"""
     ops = []
     cur = ()
     counters = {(): 0}
@@ -466,6 +471,8 @@ def placement_ops(pa, pb, desc):
         # a *different* group with the same positional path cannot be re-entered: paths differ by construction
         goto(pb)
         ops.append(["start", "hybrid", desc])
+    if before_close:
+        ops.extend(before_close)
     goto(())
     return ops
 
@@ -557,6 +564,14 @@ def shard(prop, tier, seed, shard, nshards):
             for f in check_case(case, acc):
                 if len(acc.failures) < 20:
                     acc.failures.append(f)
+            if not sched:
+                # the same scenario written with every connect() issued as soon as both simulators exist, i.e.
+                # inside still open group blocks
+                case = {"kind": "scoping", "placement": name + "|connect_early",
+                        "scenario": dict(scn, script={"connect_early": True}), "schedule": sched}
+                for f in check_case(case, acc):
+                    if len(acc.failures) < 20:
+                        acc.failures.append(f)
 
     attr = st.sampled_from(["a", "b", "c", "q"])
     sub = st.lists(st.sampled_from(["a", "b", "c"]), unique=True, max_size=3).map(sorted)
